@@ -211,12 +211,9 @@ func c16(c *Ctx) {
 				}
 				for _, cl := range callsIn(g) {
 					if _, ok := isCbCall(cl); ok {
-						// guarded by stream != nil
-						for _, cd := range condsFor(cl.Block()) {
-							cd = normCond(cd)
-							if b := asBinOp(cd.V, token.NEQ); b != nil && cd.Sense && isNilConst(b.Y) {
-								okDefer = true
-							}
+						// guarded by stream != nil (in either branch polarity)
+						if knownNonNil(factsAt(cl.Block()), func(v ssa.Value) bool { return true }) {
+							okDefer = true
 						}
 					}
 				}
@@ -385,33 +382,56 @@ func c16(c *Ctx) {
 		})
 		r.Check("callback:done-exactly-once", m == 2, cbf.Pos(), "wg.Done() executions over all paths of the callback = "+maskString(m))
 		// same WaitGroup: the wg parameter
-		okSame := true
-		for _, cl := range callsTo(cbf, "(*sync.WaitGroup).Done") {
-			if valueName(cl.Common().Args[0]) != "wg" {
+		okSame := add != nil
+		var addWg ssa.Value
+		if add != nil {
+			addWg = ptrOrigin(add.Common().Args[0])
+			if _, isParam := addWg.(*ssa.Parameter); !isParam {
 				okSame = false
 			}
 		}
-		r.Check("callback:same-waitgroup", okSame && add != nil && valueName(add.Common().Args[0]) == "wg", cbf.Pos(), "Add and Done use the same WaitGroup")
+		for _, cl := range callsTo(cbf, "(*sync.WaitGroup).Done") {
+			if ptrOrigin(cl.Common().Args[0]) != addWg {
+				okSame = false
+			}
+		}
+		r.Check("callback:same-waitgroup", okSame, cbf.Pos(), "Add and Done use the same WaitGroup (sendMetricsAsync's parameter)")
 		// the same context and map are passed
 		r.Check("sendMetricsAsync:passes-map", paramIndex(sm, send.Common().Args[1]) == 3, send.Pos(), "the flushed map is passed to the backend")
 		// flushData waits
+		// the WaitGroup handed to sendMetricsAsync (the parameter Add/Done use) is a local of flushData ...
+		var handed ssa.Value
+		okWg := false
+		wgIdx := -1
+		if p, ok := addWg.(*ssa.Parameter); ok {
+			for i, q := range sm.Params {
+				if q == p {
+					wgIdx = i
+				}
+			}
+		}
+		for _, g := range WithAnon(fd) {
+			for _, cl := range callsIn(g) {
+				if staticCallee(cl) == sm && wgIdx >= 0 && wgIdx < len(cl.Common().Args) {
+					h := ptrOrigin(cl.Common().Args[wgIdx])
+					if al, ok := h.(*ssa.Alloc); ok && al.Parent() == fd {
+						handed = h
+						okWg = true
+					} else {
+						okWg = false
+					}
+				}
+			}
+		}
+		r.Check("flushData:passes-sendWg", okWg, fd.Pos(), "sendMetricsAsync(ctx, &sendWg, m) with sendWg a local of flushData")
+		// ... and flushData waits on exactly that one
 		nw := 0
 		for _, cl := range callsTo(fd, "(*sync.WaitGroup).Wait") {
-			if valueName(cl.Common().Args[0]) == "sendWg" {
+			if handed != nil && ptrOrigin(cl.Common().Args[0]) == handed {
 				nw++
 			}
 		}
 		r.Check("flushData:waits-for-callbacks", nw == 1, fd.Pos(), "flushData calls sendWg.Wait()")
-		// the WaitGroup handed to sendMetricsAsync is that sendWg
-		okWg := false
-		for _, g := range WithAnon(fd) {
-			for _, cl := range callsIn(g) {
-				if staticCallee(cl) == sm && valueName(cl.Common().Args[2]) == "sendWg" {
-					okWg = true
-				}
-			}
-		}
-		r.Check("flushData:passes-sendWg", okWg, fd.Pos(), "sendMetricsAsync(ctx, &sendWg, m)")
 	})
 
 	c.Rule("C16.R4", "HTTP collectors: every received result and the cancellation error are appended to the slice given to the callback; one result expected per batch", 9, func(r *Rule) {
@@ -473,33 +493,92 @@ func c16(c *Ctx) {
 				walk(arg)
 				r.Check(key+":results-reported", kinds["received-result"], cbCall.Pos(), fmt.Sprintf("errors appended to the callback's slice: %v", kinds))
 				r.Check(key+":cancellation-reported", kinds["ctx.Err"], cbCall.Pos(), "on cancellation ctx.Err() is appended so the flush is reported as failed")
-				// loop bound: the counter incremented once per batch
-				okCnt := false
-				eachInstr(g, func(in ssa.Instruction) {
-					if b, ok := in.(*ssa.BinOp); ok && b.Op == token.LSS && strings.Contains(pathOf(b.Y), "counter") {
-						okCnt = true
-					}
-				})
-				r.Check(key+":one-result-per-batch", okCnt, g.Pos(), "the collector waits for `counter` results")
-				// counter++ happens exactly once in the per-batch closure, next to the go statement
+				// the batch counter: an int variable of SendMetricsAsync incremented by one in the block
+				// (of a nested function) that starts a sender goroutine
 				nInc := 0
+				var counterCell *ssa.Alloc
 				for _, h := range WithAnon(fn)[1:] {
 					eachInstr(h, func(in ssa.Instruction) {
-						if st, ok := in.(*ssa.Store); ok && valueName(st.Addr) == "counter" {
-							if b := asBinOp(st.Val, token.ADD); b != nil {
-								hasGo := false
-								for _, in2 := range st.Block().Instrs {
-									if _, ok := in2.(*ssa.Go); ok {
-										hasGo = true
-									}
-								}
-								if hasGo {
-									nInc++
-								}
+						st, ok := in.(*ssa.Store)
+						if !ok {
+							return
+						}
+						cell := cellOf(st.Addr)
+						if cell == nil || cell.Parent() != fn {
+							return
+						}
+						b := asBinOp(st.Val, token.ADD)
+						if b == nil {
+							return
+						}
+						if one, isC := constInt(b.Y); !isC || one != 1 {
+							return
+						}
+						if ld, ok := b.X.(*ssa.UnOp); !ok || cellOf(ld.X) != cell {
+							return
+						}
+						hasGo := false
+						for _, in2 := range st.Block().Instrs {
+							if _, ok := in2.(*ssa.Go); ok {
+								hasGo = true
 							}
+						}
+						if hasGo {
+							nInc++
+							counterCell = cell
 						}
 					})
 				}
+				// loop bound: the collector receives exactly that many results (counting up to it or down from it)
+				okCnt := false
+				isCounter := func(v ssa.Value) bool {
+					ld, ok := v.(*ssa.UnOp)
+					return ok && ld.Op == token.MUL && counterCell != nil && cellOf(ld.X) == counterCell
+				}
+				eachInstr(g, func(in ssa.Instruction) {
+					ph, ok := in.(*ssa.Phi)
+					if !ok || len(ph.Edges) != 2 {
+						return
+					}
+					var init ssa.Value
+					step := int64(0)
+					for _, e := range ph.Edges {
+						if b := asBinOp(e, token.ADD, token.SUB); b != nil && b.X == ssa.Value(ph) {
+							if k, isC := constInt(b.Y); isC && k == 1 {
+								step = 1
+								if b.Op == token.SUB {
+									step = -1
+								}
+								continue
+							}
+						}
+						init = e
+					}
+					if init == nil || step == 0 {
+						return
+					}
+					for _, ref := range referrers(ph) {
+						b, ok := ref.(*ssa.BinOp)
+						if !ok {
+							continue
+						}
+						zeroInit := false
+						if k, isC := constInt(init); isC && k == 0 {
+							zeroInit = true
+						}
+						zeroY := false
+						if k, isC := constInt(b.Y); isC && k == 0 {
+							zeroY = true
+						}
+						switch {
+						case step == 1 && zeroInit && b.Op == token.LSS && b.X == ssa.Value(ph) && isCounter(b.Y):
+							okCnt = true // for c := 0; c < counter; c++
+						case step == -1 && isCounter(init) && b.Op == token.GTR && b.X == ssa.Value(ph) && zeroY:
+							okCnt = true // for pending := counter; pending > 0; pending--
+						}
+					}
+				})
+				r.Check(key+":one-result-per-batch", okCnt, g.Pos(), "the collector waits for as many results as sender goroutines were started")
 				r.Check(key+":counter-matches-goroutines", nInc == 1, fn.Pos(), fmt.Sprintf("%d sites increment counter together with starting a sender goroutine", nInc))
 			}
 		}
@@ -665,6 +744,47 @@ func startedWithGo(fn, g *ssa.Function) bool {
 // loopCoversSlice: the loop counter ph visits every index of slice s exactly once: it starts at 0
 // (or -1 when incremented before use, the range form), advances by one, and the loop runs while
 // it is below len(s).
+// ptrOrigin follows a pointer value back through local cells / captured variables that are
+// assigned exactly once (and through no-op conversions) to the value originally stored.
+func ptrOrigin(v ssa.Value) ssa.Value {
+	for d := 0; d < 8; d++ {
+		switch x := v.(type) {
+		case *ssa.ChangeType:
+			v = x.X
+			continue
+		case *ssa.UnOp:
+			if x.Op != token.MUL {
+				return v
+			}
+			cell := cellOf(x.X)
+			if cell == nil {
+				return v
+			}
+			var val ssa.Value
+			n := 0
+			for _, ref := range referrers(cell) {
+				if st, ok := ref.(*ssa.Store); ok && st.Addr == ssa.Value(cell) {
+					n++
+					val = st.Val
+				}
+			}
+			if n != 1 {
+				return v
+			}
+			v = val
+			continue
+		case *ssa.FreeVar:
+			// a captured pointer variable itself
+			if c := cellOf(x); c != nil {
+				return c
+			}
+			return v
+		}
+		return v
+	}
+	return v
+}
+
 func loopCoversSlice(ph *ssa.Phi, s ssa.Value) bool {
 	okInit, okStep := false, false
 	var stepped ssa.Value
